@@ -179,7 +179,14 @@ class Driver:
 
     def _ask1(self, fam, lines):
         exe = BIN / f"drx_{fam}"
-        if not self.ok or fam in self.disabled or not exe.exists():
+        if not self.ok or fam in self.disabled:
+            return [None] * len(lines)
+        for _ in range(40):
+            # a concurrent `lake build` (another check) may be re-linking the executable right now
+            if exe.exists() and os.access(exe, os.X_OK):
+                break
+            time.sleep(3)
+        else:
             return [None] * len(lines)
         nproc = min(16, max(1, len(lines) // 200))
         if nproc > 1:
